@@ -16,9 +16,12 @@ Fixpoint all_some {A} (l : list (option A)) : option (list A) :=
   | None :: _ => None
   end.
 
+(* an input RDD: either its partitions given explicitly (VList of VLists: built with _parallelize_partitions)
+   or VTup [VInt n; VList xs]: built with the real Context.parallelize(xs, n), modelled by [parallelize] *)
 Definition dec_parts (v : val) : option (list (list pv)) :=
   match v with
   | VList ps => all_some (map (fun p => match p with VList l => all_some (map pv_of_val l) | _ => None end) ps)
+  | VTup [VInt n; VList xs] => option_map (fun l => parallelize l (Some n)) (all_some (map pv_of_val xs))
   | _ => None
   end.
 Definition as_pair (p : pv) : option (pv * pv) :=
@@ -114,19 +117,57 @@ Definition run_elems (op : Z) (lp rp : list (list pv)) (np : option Z) : val :=
           then let parts := rdd_intersection pv_eqb lp rp in ok (csort (concat parts)) (sizes_of parts)
           else type_error
   | 14 => exact pair_pv (rdd_cartesian lp rp)
+  (* repartition(n) / partitionBy(n): outside the model of C02 except for what the property needs of them:
+     the multiset of elements is the input's (compared canonically sorted, partition sizes not modelled) *)
+  | 18 | 19 => ok (csort (concat lp)) VNone
   | _ => VBad
+  end.
+
+Definition dec_np (npv : val) : option (option Z) :=
+  match npv with VNone => Some None | VInt n => Some (Some n) | _ => None end.
+
+Definition run_one (op : Z) (lp rp : list (list pv)) (np : option Z) (extra : Z) : val :=
+  if existsb (Z.eqb op) [11; 12; 13; 14; 18; 19] then run_elems op lp rp np
+  else match dec_pairs lp, dec_pairs rp with
+       | Some lk, Some rk => run_keyed op lk rk np extra
+       | _, _ => VBad
+       end.
+
+(* op 20: a sequence of join-family calls on the SAME two RDD objects, each result evaluated before the next
+   call is made; step = VTup [VInt op; VBool swapped] (swapped: the method is called on `other` with `self`
+   as argument).  The model is pure: each step is the single call on the same inputs. *)
+Fixpoint run_steps (lp rp : list (list pv)) (np : option Z) (steps : list val) : option (list val) :=
+  match steps with
+  | [] => Some []
+  | VTup [VInt op; VBool sw] :: steps' =>
+      if existsb (Z.eqb op) [5; 6; 7; 8; 9; 10; 16; 17] then
+        option_map (cons (if sw then run_one op rp lp np 0 else run_one op lp rp np 0)) (run_steps lp rp np steps')
+      else None
+  | _ => None
+  end.
+Fixpoint first_err (l : list val) : option val :=
+  match l with
+  | [] => None
+  | VErr e :: _ => Some (VErr e)
+  | _ :: l' => first_err l'
   end.
 
 Definition run (c : val) : val :=
   match c with
-  | VTup [VInt op; lpv; rpv; npv; VInt extra] =>
-      match dec_parts lpv, dec_parts rpv, (match npv with VNone => Some None | VInt n => Some (Some n) | _ => None end) with
+  | VTup [VInt op; lpv; rpv; npv; ex] =>
+      match dec_parts lpv, dec_parts rpv, dec_np npv with
       | Some lp, Some rp, Some np =>
-          if existsb (Z.eqb op) [11; 12; 13; 14] then run_elems op lp rp np
-          else match dec_pairs lp, dec_pairs rp with
-               | Some lk, Some rk => run_keyed op lk rk np extra
-               | _, _ => VBad
-               end
+          match ex with
+          | VInt extra => if Z.eqb op 20 then VBad else run_one op lp rp np extra
+          | VList steps =>
+              if Z.eqb op 20 then
+                match run_steps lp rp np steps with
+                | Some rs => match first_err rs with Some e => e | None => VList rs end
+                | None => VBad
+                end
+              else VBad
+          | _ => VBad
+          end
       | _, _, _ => VBad
       end
   | _ => VBad
